@@ -244,6 +244,9 @@ pub struct Machine {
     pub excluded_known: u64,
     /// strict mode: known findings are not excluded (used by the per-run probes)
     pub strict: bool,
+    /// this history may contain bulk writes (hundreds of pages in one transaction)
+    pub bulk_mode: bool,
+    pub bulk_ops: u32,
     /// fault-injection mode (C08): storage errors are expected, see `exec_fault`
     pub fault_mode: bool,
     /// an I/O-class error has been reported to the caller since the last successful open
@@ -345,6 +348,8 @@ impl Machine {
             last_abandon: None,
             excluded_known: 0,
             strict: false,
+            bulk_mode: false,
+            bulk_ops: 0,
             fault_mode: false,
             surfaced: false,
             surfaced_count: 0,
@@ -631,6 +636,9 @@ impl Machine {
 
     pub fn exec(&mut self, rec: &[u8; 12]) -> R {
         self.step += 1;
+        if self.bulk_mode && rec[9] < 6 {
+            return self.op_bulk(rec);
+        }
         let mut r = Rec::new(rec);
         let kind = r.weighted(&self.profile.weights());
         match kind {
@@ -815,6 +823,117 @@ impl Machine {
             }
         }
         drop(temp);
+        Ok(())
+    }
+
+    /// Bulk write: (re)write 410-510 rows of about one page each into table "t0" in the current
+    /// transaction, or delete that table once it is big. Every bulk write after the first frees
+    /// more than 400 pages in one transaction, which is what makes the pending-free records of a
+    /// commit span several entries (400 pages per entry).
+    fn op_bulk(&mut self, rec: &[u8; 12]) -> R {
+        self.ensure_w()?;
+        if self.w.as_ref().unwrap().poisoned {
+            return Ok(());
+        }
+        let name = NAMES[0];
+        let existing = self.w.as_ref().unwrap().work.tables.get(name).map(|t| (t.def(), t.entries()));
+        let def = existing.map(|e| e.0).unwrap_or(DEFS[0]);
+        if def.multi {
+            return Ok(());
+        }
+        let held = self.w.as_ref().unwrap().held.contains_key(name);
+        if let Some((_, n)) = existing
+            && n >= 400
+            && !held
+            && rec[7] % 4 == 0
+        {
+            // delete the big table
+            let w = self.w.as_mut().unwrap();
+            let txn: &WriteTransaction = w.txn.as_ref().unwrap();
+            let d: redb::TableDefinition<u64, u64> = redb::TableDefinition::new(name);
+            match catch(|| txn.delete_table(d)) {
+                Ok(Ok(true)) => {}
+                Ok(Ok(false)) => sfail!("delete-result", "delete_table({name:?}) returned false for an existing table"),
+                Ok(Err(TableError::Storage(e))) => return Err(Stop::Io(format!("delete: {e:?}"))),
+                Ok(Err(e)) => sfail!("delete-unexpected-error", "delete_table({name:?}) failed: {e:?}"),
+                Err(p) => sfail!(format!("panic:{}", normalize_sig(&p)), "panic in delete_table({name:?}): {p}"),
+            }
+            w.dirty = true;
+            Arc::make_mut(&mut w.work.tables).remove(name);
+            w.structural_ops += 1;
+            w.freeing_ops += 1;
+            w.tables_changed.insert(name.to_string());
+            self.stats.deletes_ok += 1;
+            self.bulk_ops += 1;
+            tr!(self, "bulk: delete_table({name:?}) of a table with >= 400 rows");
+            return Ok(());
+        }
+        let mut temp: Option<Box<dyn DynTab>> = None;
+        if !held {
+            match self.open_checked(name, def)? {
+                Some(t) => temp = Some(t),
+                None => return Ok(()),
+            }
+        }
+        let n = 410 + (rec[8] as usize % 3) * 50;
+        let page = self.cfg.page_size;
+        let tag0 = ((self.step as u64) << 20) | u64::from(rec[10]) << 8 | u64::from(rec[11]);
+        let thin = existing.is_some_and(|e| e.1 >= 400) && rec[7] % 4 == 1;
+        if thin {
+            // thin out a sub-range of the bulk rows (keep about 6%): whole bottom-level branches
+            // repack into single leaves while their siblings keep their level
+            let a = (rec[5] as usize * 3) % 300;
+            let b = a + 40 + (rec[6] as usize % 8) * 25;
+            let (mut lo, mut hi) = (crate::genr::key(def.kty, 1000 + 4 * a, page), crate::genr::key(def.kty, 1000 + 4 * b, page));
+            if lo > hi {
+                std::mem::swap(&mut lo, &mut hi);
+            }
+            let op = AnyOp::T(crate::tableops::TOp::Retain { salt: tag0, keep: 0, range: Some((std::ops::Bound::Included(lo), std::ops::Bound::Excluded(hi))), panic_at: None });
+            tr!(self, "bulk: {op:?} on {name:?}");
+            let w = self.w.as_mut().unwrap();
+            let model = Arc::make_mut(&mut w.work.tables).get_mut(name).expect("harness: model table missing");
+            let handle: &mut Box<dyn DynTab> = match temp.as_mut() {
+                Some(t) => t,
+                None => w.held.get_mut(name).unwrap(),
+            };
+            match catch(|| handle.apply(&op, model, &mut self.ctx)) {
+                Ok(r) => {
+                    r?;
+                }
+                Err(p) => sfail!(format!("panic:{}", normalize_sig(&p)), "panic inside a ranged retain over bulk rows: {p}"),
+            }
+            w.tables_changed.insert(name.to_string());
+            w.freeing_ops += 1;
+            drop(temp);
+            self.bulk_ops += 1;
+            return Ok(());
+        }
+        tr!(self, "bulk: {n} inserts of ~1 page each into {name:?} [{}]", def.label());
+        let w = self.w.as_mut().unwrap();
+        let model = Arc::make_mut(&mut w.work.tables).get_mut(name).expect("harness: model table missing");
+        let handle: &mut Box<dyn DynTab> = match temp.as_mut() {
+            Some(t) => t,
+            None => w.held.get_mut(name).unwrap(),
+        };
+        for i in 0..n {
+            // class 190 of value_len is "page - 64 +- d": one row per leaf
+            let op = AnyOp::T(crate::tableops::TOp::Insert { k: crate::genr::key(def.kty, 1000 + 4 * i, page), v: crate::genr::val_of(def.vty, tag0 ^ ((i as u64) << 40), 190, (i % 17) as u8, page, self.cfg.max_value_len()) });
+            let res = catch(|| handle.apply(&op, model, &mut self.ctx));
+            match res {
+                Ok(r) => {
+                    r?;
+                }
+                Err(p) => sfail!(format!("panic:{}", normalize_sig(&p)), "panic inside insert {i} of a bulk write: {p}"),
+            }
+        }
+        w.tables_changed.insert(name.to_string());
+        w.alloc_ops += 1;
+        w.freeing_ops += 1;
+        if let Ok(h) = handle.tree_height() {
+            self.stats.max_height = self.stats.max_height.max(h);
+        }
+        drop(temp);
+        self.bulk_ops += 1;
         Ok(())
     }
 
@@ -1680,7 +1799,13 @@ impl Machine {
         Ok(())
     }
 
+    /// one case in twelve may contain bulk writes
+    pub fn set_bulk_from(&mut self, tape: &Tape) {
+        self.bulk_mode = tape.cfg[3] % 12 == 0;
+    }
+
     pub fn run_tape(&mut self, tape: &Tape) -> R {
+        self.set_bulk_from(tape);
         for rec in &tape.recs {
             self.exec(rec)?;
         }
